@@ -11,12 +11,15 @@
                                                    scheduler.collect_global(id); an I/O event -> data.co.take(),
                                                    schedule_with_id (work_steal) / run_coroutine (otherwise);
                                                    run_queued_tasks(id); free_unused_event_data;
-                                                   timer_list.schedule_timer(now, timeout_handler) -> next_expire
+                                                   timer_list.schedule_timer(now, timeout_handler) -> next_expire;
+                                                   has_local_tasks(id) -> Some(0) instead
                                Selector::wakeup    write(evfd)
-     src/scheduler.rs  run_queued_tasks            'work: local.pop -> run_coroutine | None -> collect_global,
-                                                   has_tasks -> continue; steal ring of min(3, workers-1) victims
-                                                   (id+i+1) % workers: steal_into -> run_coroutine, continue 'work;
-                                                   return          (without work_steal: while let Some = local.pop)
+     src/scheduler.rs  run_queued_tasks            budget = RUN_BUDGET; 'work: local.pop -> run_coroutine, budget -= 1,
+                                                   0: return, multiple of GLOBAL_INTERVAL: collect_global | None ->
+                                                   collect_global, has_tasks -> continue; steal ring of min(3, workers-1)
+                                                   victims (id+i+1) % workers: steal_into -> run_coroutine, continue 'work;
+                                                   return          (without work_steal: while let Some = local.pop, the same
+                                                   budget, no collect_global on None, no stealing)
                        collect_global              v = global.bulk_pop(); while !v.is_empty() { push_back all; bulk_pop }
                        schedule                    on a worker: local push_back, else schedule_global
                        schedule_global(_with_id)   global.push(co) THEN wakeup(thread_id)
@@ -57,13 +60,19 @@ From Coq Require Import List Arith ZArith NArith Bool Lia.
 Import ListNotations.
 Require Import MayV.Rt.SchedModel.
 
-Record params := { push_first : bool; work_steal : bool; cfg_tmo : N }.
+(* budgeted = true: the code as it is (fix e723520, finding F34): run_queued_tasks runs at most `budget` coroutines from
+   its local queue per call (RUN_BUDGET), calls collect_global whenever the remaining budget is a multiple of `interval`
+   (GLOBAL_INTERVAL), and select returns Some(0) when the local queue is not empty (the next epoll_wait only polls).
+   budgeted = false: the loop before that fix, kept for the refuted statements. *)
+Record params := { push_first : bool; work_steal : bool; cfg_tmo : N; budgeted : bool; budget : nat; interval : nat }.
 
-(* where run_coroutine was called from: run_queued_tasks / the I/O timeout handler of schedule_timer /
-   an I/O event (without work_steal; e = the eventfd event is still to be processed) *)
-Inductive ret := RRun | RTim | RIo (e : bool).
-(* where collect_global was called from: the eventfd event of select / run_queued_tasks *)
-Inductive cfrom := FromEv | FromRun.
+(* where run_coroutine was called from: run_queued_tasks after local.pop / after steal_into (not counted in the budget) /
+   the I/O timeout handler of schedule_timer / an I/O event (without work_steal; e = the eventfd event is still to be
+   processed) *)
+Inductive ret := RRun | RSt | RTim | RIo (e : bool).
+(* where collect_global was called from: the eventfd event of select / run_queued_tasks after local.pop returned None /
+   run_queued_tasks when the remaining budget is a multiple of the interval *)
+Inductive cfrom := FromEv | FromRun | FromBud.
 
 Inductive lpc :=
   | PWait                 (* about to call epoll_wait with timeout `tmo w` *)
@@ -96,28 +105,32 @@ Record lst := {
   nsel : nat -> nat;
   coll0 : nat -> nat;
   ngrab : nat -> nat;
-  ntake : nat -> nat }.
+  ntake : nat -> nat;
+  bud : nat -> nat;           (* remaining budget of the run_queued_tasks call in progress *)
+  since : nat -> nat }.       (* ghost: run_coroutine calls (after local.pop) since the call started / the last collect_global completed *)
 
-Definition mkl b p e t d sl n o an pr np nc ns c0 ng nt :=
+Definition mkl b p e t d sl n o an pr np nc ns c0 ng nt bu si :=
   {| base := b; wpc := p; evfd := e; tmo := t; dl := d; slept := sl; now := n; owed := o; anon := an; pre := pr;
-     npop := np; ncoll := nc; nsel := ns; coll0 := c0; ngrab := ng; ntake := nt |}.
-Definition l_base l x := mkl x (wpc l) (evfd l) (tmo l) (dl l) (slept l) (now l) (owed l) (anon l) (pre l) (npop l) (ncoll l) (nsel l) (coll0 l) (ngrab l) (ntake l).
-Definition l_wpc l x := mkl (base l) x (evfd l) (tmo l) (dl l) (slept l) (now l) (owed l) (anon l) (pre l) (npop l) (ncoll l) (nsel l) (coll0 l) (ngrab l) (ntake l).
-Definition l_evfd l x := mkl (base l) (wpc l) x (tmo l) (dl l) (slept l) (now l) (owed l) (anon l) (pre l) (npop l) (ncoll l) (nsel l) (coll0 l) (ngrab l) (ntake l).
-Definition l_tmo l x := mkl (base l) (wpc l) (evfd l) x (dl l) (slept l) (now l) (owed l) (anon l) (pre l) (npop l) (ncoll l) (nsel l) (coll0 l) (ngrab l) (ntake l).
-Definition l_dl l x := mkl (base l) (wpc l) (evfd l) (tmo l) x (slept l) (now l) (owed l) (anon l) (pre l) (npop l) (ncoll l) (nsel l) (coll0 l) (ngrab l) (ntake l).
-Definition l_slept l x := mkl (base l) (wpc l) (evfd l) (tmo l) (dl l) x (now l) (owed l) (anon l) (pre l) (npop l) (ncoll l) (nsel l) (coll0 l) (ngrab l) (ntake l).
-Definition l_now l x := mkl (base l) (wpc l) (evfd l) (tmo l) (dl l) (slept l) x (owed l) (anon l) (pre l) (npop l) (ncoll l) (nsel l) (coll0 l) (ngrab l) (ntake l).
-Definition l_owed l x := mkl (base l) (wpc l) (evfd l) (tmo l) (dl l) (slept l) (now l) x (anon l) (pre l) (npop l) (ncoll l) (nsel l) (coll0 l) (ngrab l) (ntake l).
-Definition l_anon l x := mkl (base l) (wpc l) (evfd l) (tmo l) (dl l) (slept l) (now l) (owed l) x (pre l) (npop l) (ncoll l) (nsel l) (coll0 l) (ngrab l) (ntake l).
-Definition l_pre l x := mkl (base l) (wpc l) (evfd l) (tmo l) (dl l) (slept l) (now l) (owed l) (anon l) x (npop l) (ncoll l) (nsel l) (coll0 l) (ngrab l) (ntake l).
-Definition l_npop l x := mkl (base l) (wpc l) (evfd l) (tmo l) (dl l) (slept l) (now l) (owed l) (anon l) (pre l) x (ncoll l) (nsel l) (coll0 l) (ngrab l) (ntake l).
-Definition l_ncoll l x := mkl (base l) (wpc l) (evfd l) (tmo l) (dl l) (slept l) (now l) (owed l) (anon l) (pre l) (npop l) x (nsel l) (coll0 l) (ngrab l) (ntake l).
-Definition l_nsel l x := mkl (base l) (wpc l) (evfd l) (tmo l) (dl l) (slept l) (now l) (owed l) (anon l) (pre l) (npop l) (ncoll l) x (coll0 l) (ngrab l) (ntake l).
-Definition l_coll0 l x := mkl (base l) (wpc l) (evfd l) (tmo l) (dl l) (slept l) (now l) (owed l) (anon l) (pre l) (npop l) (ncoll l) (nsel l) x (ngrab l) (ntake l).
-Definition l_ngrab l x := mkl (base l) (wpc l) (evfd l) (tmo l) (dl l) (slept l) (now l) (owed l) (anon l) (pre l) (npop l) (ncoll l) (nsel l) (coll0 l) x (ntake l).
+     npop := np; ncoll := nc; nsel := ns; coll0 := c0; ngrab := ng; ntake := nt; bud := bu; since := si |}.
+Definition l_base l x := mkl x (wpc l) (evfd l) (tmo l) (dl l) (slept l) (now l) (owed l) (anon l) (pre l) (npop l) (ncoll l) (nsel l) (coll0 l) (ngrab l) (ntake l) (bud l) (since l).
+Definition l_wpc l x := mkl (base l) x (evfd l) (tmo l) (dl l) (slept l) (now l) (owed l) (anon l) (pre l) (npop l) (ncoll l) (nsel l) (coll0 l) (ngrab l) (ntake l) (bud l) (since l).
+Definition l_evfd l x := mkl (base l) (wpc l) x (tmo l) (dl l) (slept l) (now l) (owed l) (anon l) (pre l) (npop l) (ncoll l) (nsel l) (coll0 l) (ngrab l) (ntake l) (bud l) (since l).
+Definition l_tmo l x := mkl (base l) (wpc l) (evfd l) x (dl l) (slept l) (now l) (owed l) (anon l) (pre l) (npop l) (ncoll l) (nsel l) (coll0 l) (ngrab l) (ntake l) (bud l) (since l).
+Definition l_dl l x := mkl (base l) (wpc l) (evfd l) (tmo l) x (slept l) (now l) (owed l) (anon l) (pre l) (npop l) (ncoll l) (nsel l) (coll0 l) (ngrab l) (ntake l) (bud l) (since l).
+Definition l_slept l x := mkl (base l) (wpc l) (evfd l) (tmo l) (dl l) x (now l) (owed l) (anon l) (pre l) (npop l) (ncoll l) (nsel l) (coll0 l) (ngrab l) (ntake l) (bud l) (since l).
+Definition l_now l x := mkl (base l) (wpc l) (evfd l) (tmo l) (dl l) (slept l) x (owed l) (anon l) (pre l) (npop l) (ncoll l) (nsel l) (coll0 l) (ngrab l) (ntake l) (bud l) (since l).
+Definition l_owed l x := mkl (base l) (wpc l) (evfd l) (tmo l) (dl l) (slept l) (now l) x (anon l) (pre l) (npop l) (ncoll l) (nsel l) (coll0 l) (ngrab l) (ntake l) (bud l) (since l).
+Definition l_anon l x := mkl (base l) (wpc l) (evfd l) (tmo l) (dl l) (slept l) (now l) (owed l) x (pre l) (npop l) (ncoll l) (nsel l) (coll0 l) (ngrab l) (ntake l) (bud l) (since l).
+Definition l_pre l x := mkl (base l) (wpc l) (evfd l) (tmo l) (dl l) (slept l) (now l) (owed l) (anon l) x (npop l) (ncoll l) (nsel l) (coll0 l) (ngrab l) (ntake l) (bud l) (since l).
+Definition l_npop l x := mkl (base l) (wpc l) (evfd l) (tmo l) (dl l) (slept l) (now l) (owed l) (anon l) (pre l) x (ncoll l) (nsel l) (coll0 l) (ngrab l) (ntake l) (bud l) (since l).
+Definition l_ncoll l x := mkl (base l) (wpc l) (evfd l) (tmo l) (dl l) (slept l) (now l) (owed l) (anon l) (pre l) (npop l) x (nsel l) (coll0 l) (ngrab l) (ntake l) (bud l) (since l).
+Definition l_nsel l x := mkl (base l) (wpc l) (evfd l) (tmo l) (dl l) (slept l) (now l) (owed l) (anon l) (pre l) (npop l) (ncoll l) x (coll0 l) (ngrab l) (ntake l) (bud l) (since l).
+Definition l_coll0 l x := mkl (base l) (wpc l) (evfd l) (tmo l) (dl l) (slept l) (now l) (owed l) (anon l) (pre l) (npop l) (ncoll l) (nsel l) x (ngrab l) (ntake l) (bud l) (since l).
+Definition l_ngrab l x := mkl (base l) (wpc l) (evfd l) (tmo l) (dl l) (slept l) (now l) (owed l) (anon l) (pre l) (npop l) (ncoll l) (nsel l) (coll0 l) x (ntake l) (bud l) (since l).
 
-Definition l_ntake l x := mkl (base l) (wpc l) (evfd l) (tmo l) (dl l) (slept l) (now l) (owed l) (anon l) (pre l) (npop l) (ncoll l) (nsel l) (coll0 l) (ngrab l) x.
+Definition l_ntake l x := mkl (base l) (wpc l) (evfd l) (tmo l) (dl l) (slept l) (now l) (owed l) (anon l) (pre l) (npop l) (ncoll l) (nsel l) (coll0 l) (ngrab l) x (bud l) (since l).
+Definition l_bud l x := mkl (base l) (wpc l) (evfd l) (tmo l) (dl l) (slept l) (now l) (owed l) (anon l) (pre l) (npop l) (ncoll l) (nsel l) (coll0 l) (ngrab l) (ntake l) x (since l).
+Definition l_since l x := mkl (base l) (wpc l) (evfd l) (tmo l) (dl l) (slept l) (now l) (owed l) (anon l) (pre l) (npop l) (ncoll l) (nsel l) (coll0 l) (ngrab l) (ntake l) (bud l) x.
 
 Definition set_pc l w p := l_wpc l (upd (wpc l) w p).
 Definition set_evfd l k b := l_evfd l (upd (evfd l) k b).
@@ -127,6 +140,7 @@ Definition grabbed l (o : option nat) := match o with Some c => l_ngrab l (inc (
 Definition taken l (o : option nat) := match o with Some c => l_ntake l (inc (ntake l) c) | None => l end.
 
 Definition is_nil {X} (l : list X) : bool := match l with [] => true | _ => false end.
+Definition is_zero (o : option N) : bool := match o with Some 0%N => true | _ => false end.
 Definition is_co (p : lpc) : bool := match p with PCo _ => true | _ => false end.
 
 (* epoll_wait takes milliseconds: to.div_ceil(1_000_000) *)
@@ -291,7 +305,7 @@ Definition ctl (P : params) (l : lst) (a : laction) (s' : st) : lst :=
   match a with
   | LBase b => ctl_base P l b l0
   | LPoll w io =>
-      if evfd l w || io then set_pc l0 w (PEvs (evfd l w))
+      if evfd l w || io || is_zero (tmo l w) then set_pc l0 w (PEvs (evfd l w))
       else l_slept (l_dl (set_pc l0 w PSleep)
                          (upd (dl l) w (option_map (fun t => (now l + rnd t)%N) (tmo l w))))
                    (upd (slept l) w (now l))
@@ -301,18 +315,19 @@ Definition ctl (P : params) (l : lst) (a : laction) (s' : st) : lst :=
                    | PEvs e => set_pc l0 w (if work_steal P then PIo e else PRes (RIo e))
                    | _ => l0 end
   | LEvRead w => set_pc (set_evfd l0 w false) w (PColl FromEv)
-  | LEvDone w => set_pc l0 w PRun
+  | LEvDone w => set_pc (l_since (l_bud l0 (upd (bud l) w (budget P))) (upd (since l) w 0)) w PRun
   | LBulkGrab w => grabbed l0 (hd_error (gq s w))
   | LBulkEnd w =>
       match wpc l w with
       | PColl r => match hand s w with
-                   | [] => set_pc (l_ncoll l0 (inc (ncoll l) w)) w (match r with FromEv => PEvs false | FromRun => PHas end)
+                   | [] => set_pc (l_since (l_ncoll l0 (inc (ncoll l) w)) (upd (since l) w 0)) w
+                                 (match r with FromEv => PEvs false | FromRun => PHas | FromBud => PRun end)
                    | _ => set_pc l0 w (PPut r) end
       | _ => l0 end
   | LPut w =>
       match wpc l w with
       | PPut r => if is_nil (hand s' w) then set_pc l0 w (PColl r) else l0
-      | PStPut => match hand s' w with [_] => set_pc l0 w (PRes RRun) | _ => l0 end
+      | PStPut => match hand s' w with [_] => set_pc l0 w (PRes RSt) | _ => l0 end
       | PIo e => set_pc l0 w (PEvs e)
       | _ => l0 end
   | LPop w =>
@@ -322,7 +337,13 @@ Definition ctl (P : params) (l : lst) (a : laction) (s' : st) : lst :=
       | [] => set_pc l1 w (if work_steal P then PColl FromRun else PTim) end
   | LResume w => match wpc l w with PRes r => set_pc l0 w (PCo r) | _ => l0 end
   | LCoRet w => match wpc l w with
-                | PCo RRun => set_pc l0 w PRun
+                | PCo RRun =>
+                    if budgeted P
+                    then let b := Nat.pred (bud l w) in
+                         set_pc (l_since (l_bud l0 (upd (bud l) w b)) (inc (since l) w)) w
+                                (if Nat.eqb b 0 then PTim else if Nat.eqb (b mod interval P) 0 then PColl FromBud else PRun)
+                    else set_pc l0 w PRun
+                | PCo RSt => set_pc l0 w PRun
                 | PCo RTim => set_pc l0 w PTim
                 | PCo (RIo e) => set_pc l0 w (PEvs e)
                 | _ => l0 end
@@ -333,14 +354,15 @@ Definition ctl (P : params) (l : lst) (a : laction) (s' : st) : lst :=
   | LStEnd w => match wpc l w with
                 | PSteal i => match hand s w with
                               | [] => set_pc l0 w (PSteal (S i))
-                              | [_] => set_pc l0 w (PRes RRun)
+                              | [_] => set_pc l0 w (PRes RSt)
                               | _ => set_pc l0 w PStPut end
                 | _ => l0 end
   | LStOut w => set_pc l0 w PTim
   | LTmTake w _ => set_pc l0 w (PRes RTim)
   | LTmDone w nx =>
       l_coll0 (l_nsel (l_tmo (set_pc l0 w PWait)
-                             (upd (tmo l) w (Some (match nx with Some t => t | None => cfg_tmo P end))))
+                             (upd (tmo l) w (Some (if budgeted P && negb (is_nil (lq s w)) then 0%N
+                                                   else match nx with Some t => t | None => cfg_tmo P end))))
                       (inc (nsel l) w))
               (upd (coll0 l) w (ncoll l w))
   | LAnonWake k => set_evfd (l_anon l0 (dec (anon l) k)) k true
@@ -358,7 +380,8 @@ Definition lstep (P : params) (l : lst) (a : laction) : option lst :=
 
 Definition linit (n : nat) : lst :=
   mkl (init n) (fun _ => PWait) (fun _ => false) (fun _ => None) (fun _ => None) (fun _ => 0%N) 0%N
-      (fun _ => 0) (fun _ => 0) (fun _ => 0) (fun _ => 0) (fun _ => 0) (fun _ => 0) (fun _ => 0) (fun _ => 0) (fun _ => 0).
+      (fun _ => 0) (fun _ => 0) (fun _ => 0) (fun _ => 0) (fun _ => 0) (fun _ => 0) (fun _ => 0) (fun _ => 0) (fun _ => 0)
+      (fun _ => 0) (fun _ => 0).
 
 Inductive LReach (P : params) (n : nat) : lst -> Prop :=
 | LR0 : LReach P n (linit n)
